@@ -23,6 +23,8 @@ NamedWait == <<"bgnamed", "bg", "bg", "gate", "waitnamed", "probe", "gate", "pro
 Short   == <<"probe", "gate", "write", "probe", "gate", "probe">>
 DeferFail == <<"defer", "deferfail", "bg", "gate", "defer", "probe">>
 SetupFail == <<"setupfail", "probe">>
+EnvPwd  == <<"env", "envpwd", "gate", "childenv", "probe">>
+BgWriter == <<"defer", "bgwriter", "gate", "fail", "probe">>
 DupBg   == <<"defer", "bgdup", "probe">>
 
 MCBatches == {
@@ -41,6 +43,8 @@ MCBatches == {
   B(<<Sc("y1", NamedWait), Sc("f1", Fails)>>, TRUE),
   B(<<Sc("g1", DeferFail), Sc("d1", Defers)>>, FALSE),
   B(<<Sc("z1", SetupFail), Sc("p1", Plain)>>, FALSE),
+  B(<<Sc("e1", EnvPwd), Sc("p1", Plain)>>, FALSE),
+  B(<<Sc("v1", BgWriter), Sc("v2", BgWriter)>>, FALSE),
   B(<<Sc("q1", DupBg), Sc("d1", Defers)>>, FALSE),
   B(<<ScF("u1", Short, "a/foo#1"), ScF("u2", Short, "b/foo"), ScF("u3", Short, "c/foo")>>, FALSE),
   B(<<ScF("u1", Short, "a/foo"), ScF("u2", Short, "b/foo#1"), ScF("u3", Short, "c/foo")>>, FALSE)
